@@ -215,7 +215,7 @@ func cmdCheck(args []string) int {
 	timeout := 30 * time.Second
 	cacheOn := true
 	if *tier == "thorough" {
-		timeout = 120 * time.Second
+		timeout = 60 * time.Second
 		cacheOn = false
 	}
 	solver := vc.NewSolver(filepath.Join(*verif, "out"), cacheOn, timeout)
